@@ -246,7 +246,8 @@ inductive Opened where
 /-- `mustOpenFilePart` followed by a complete read of every block and column (the driver's `Dump`).
     Open time: `metadata.json` must parse; `tag.type` may be absent or empty, otherwise it must parse;
     `meta.bin` must exist and is decoded — an *empty* `meta.bin` is accepted as "no blocks" (the part then
-    serves no rows, whatever `metadata.json` says); `primary.bin`, `timestamps.bin`, `fv.bin` must exist.
+    serves no rows, whatever `metadata.json` says); `primary.bin`, `timestamps.bin`, `fv.bin` must exist, and a
+    tag-family file `tf1.tf` needs its `tf1.tfm` (`seqReaders.init` dereferences the missing reader).
     Read time: with a non-empty `meta.bin` every column file must be intact. -/
 def openPart (t : Tree) (id : Nat) : Opened :=
   match (readFile t (pfile id .metadata)).bind decList with
@@ -260,7 +261,9 @@ where
     match readFile t (pfile id .mt) with
     | none => .panic "meta.bin"
     | some [] =>
-      if [PFile.primary, .timestamps, .fv].all (fun f => isFile t (pfile id f)) then .ok [] else .panic "data file"
+      if [PFile.primary, .timestamps, .fv].all (fun f => isFile t (pfile id f)) &&
+          (!isFile t (pfile id .tf) || isFile t (pfile id .tfm))
+      then .ok [] else .panic "data file"
     | some c =>
       if decData .mt c == some bs ∧ [PFile.primary, .timestamps, .fv, .tf, .tfm].all
           (fun f => (readFile t (pfile id f)).bind (decData f) == some bs)
